@@ -4,7 +4,7 @@
    Wal/CrcTab.v, Wal/Pb.v; it is tied to the Go code by the differential run of ./check C16. *)
 Require Import Base.Bytes Wal.Crc32c Wal.CrcTab Wal.Pb Wal.WalModel Wal.WalSpec Wal.SnapModel.
 Require Import Wal.FrameProofs Wal.CrcProofs Wal.PbProofs Wal.WalProofs Wal.WalRefuted Wal.SnapProofs.
-Require Import Wal.TornProofs Wal.RepairProofs Wal.ReadAllProofs Wal.RoundtripProofs Wal.SnapFlipProofs Wal.FlipReadProofs Wal.DurableProofs Wal.FlipClassProofs Wal.FlipCrcProofs Wal.FlipAllProofs Wal.TruncProofs Wal.SecondLifeProofs.
+Require Import Wal.TornProofs Wal.RepairProofs Wal.ReadAllProofs Wal.RoundtripProofs Wal.SnapFlipProofs Wal.FlipReadProofs Wal.DurableProofs Wal.FlipClassProofs Wal.FlipCrcProofs Wal.FlipAllProofs Wal.TruncProofs Wal.SecondLifeProofs Wal.SessionProofs.
 Local Open Scope N_scope.
 
 (* ------------------------------------------------------------------ frames *)
@@ -506,6 +506,59 @@ Theorem C16_second_life_roundtrip : forall rs_synced rs_unsynced crc0 (lost : N 
          = (firstn m rs' ++ rs2', FEnd, off + blen bs2, c2).
 Proof. exact second_life_after_crash. Qed.
 Print Assumptions C16_second_life_roundtrip.
+
+(* SESSIONS: segment names across Close / Open(snapshot) / ReadAll.  (1) cut names the new tail
+   <seq+1>-<enti+1> and closes the old one under its own name. *)
+Theorem C16_cut_names : forall w,
+  w_seq (w_cut w) = w_seq w + 1 /\ w_idx (w_cut w) = w_enti w + 1
+  /\ map fst (w_closed (w_cut w)) = map fst (w_closed w) ++ [(w_seq w, w_idx w)].
+Proof. exact cut_names. Qed.
+Print Assumptions C16_cut_names.
+
+(* (2) after Close; Open(snapshot si/st); ReadAll, the writer has the same files, names and digest,
+   and enti = the index of the LAST entry record of the selected segments (enti_of_records),
+   whatever si is: entries at or below the start snapshot count (C16_enti_last_entry), so the
+   next cut is named after the last stored entry, not after 0 *)
+Theorem C16_reopen_enti : forall segsize w si st w',
+  w_reopen segsize w si st = Some w' ->
+  exists sel rs off c,
+    select_files (w_files segsize w) si = Some sel /\ decode_files sel 0 = (rs, FEnd, off, c)
+    /\ w_enti w' = enti_of_records rs 0
+    /\ w_seq w' = w_seq w /\ w_idx w' = w_idx w /\ w_closed w' = w_closed w /\ w_cur w' = w_cur w
+    /\ w_crc w' = w_crc w.
+Proof. exact reopen_enti. Qed.
+Print Assumptions C16_reopen_enti.
+
+Theorem C16_enti_last_entry :
+  (forall a b acc, enti_of_records (a ++ b) acc = enti_of_records b (enti_of_records a acc))
+  /\ (forall e acc, entry_ok e -> enti_of_records [entry_rec e] acc = e_index e)
+  /\ (forall r acc, r_type r <> entryType -> enti_of_records [r] acc = acc).
+Proof. split; [exact enti_of_records_app|]. split; [exact enti_of_records_entry|exact enti_of_records_other]. Qed.
+Print Assumptions C16_enti_last_entry.
+
+(* (3) searchIndex (file selection of Open/Verify): the LAST segment whose name index is <= the
+   snapshot index, every later name index being above it *)
+Theorem C16_search_index : forall names index pos best k,
+  search_index names index pos best = Some k ->
+  (best = Some k /\ forall j idx sq, nth_error names j = Some (sq, idx) -> index < idx)
+  \/ (exists j sq idx, k = (pos + j)%nat /\ nth_error names j = Some (sq, idx) /\ idx <= index
+        /\ forall j' sq' idx', (j < j')%nat -> nth_error names j' = Some (sq', idx') -> index < idx').
+Proof. exact search_index_spec. Qed.
+Print Assumptions C16_search_index.
+
+(* the history of seed readall-skips-enti-at-snapshot on the model: names 0-0, 1-6; reads from
+   snapshot 5 and from 0 find everything *)
+Example C16_session_naming_ex :
+  let w := fst (s_run_d 512 None sess_ops) in
+  let files := w_files 512 w in
+  (512 <=? blen (snd (hd (0, 0, []) files))) = true
+  /\ map fst files = [(0, 0); (1, 6)]
+  /\ (match select_files files 5 with Some sel => read_all true 5 1 sel | None => RAErr CBadType end)
+     = RAOk None (mkhs 2 2 6) [mkentry 0 2 6 (Some [x42])] true
+  /\ (match select_files files 0 with
+      | Some sel => match read_all true 0 0 sel with RAOk _ _ ents _ => length ents | RAErr _ => 0%nat end
+      | None => 0%nat end) = 6%nat.
+Proof. exact session_naming_ex. Qed.
 
 (* non-vacuity: a segment head, a metadata record (both synced), then an entry record of 600
    bytes written after the sync; the crash loses sector 1 (bytes 512..1023).  The side condition
